@@ -637,6 +637,17 @@ fn main() {
             for f in st.record_failures.iter().take(3) { println!("RECFAIL {:?}", f); }
             0
         }
+        Some("plan") => {
+            // one scheduler plan on its own: vh plan <Cxx> <scenario> <cache> <bound>
+            let prop = args.get(2).cloned().unwrap_or("C03".into());
+            let scn: &'static str = Box::leak(args.get(3).cloned().unwrap_or("S1".into()).into_boxed_str());
+            let cache: usize = args.get(4).and_then(|s| s.parse().ok()).unwrap_or(0);
+            let bound: usize = args.get(5).and_then(|s| s.parse().ok()).unwrap_or(1);
+            let mut rep = Report::new(&prop, "thorough", "model_checking");
+            rep.cov("exhaustive", json!(true));
+            vh::schedrun::run_plans(&mut rep, vec![vh::schedrun::Plan { scn, cache, bound, reduced: true, cap: 1_500_000 }]);
+            rep.finish()
+        }
         Some("replay") => replay(args.get(2).map(|s| s.as_str()).unwrap_or("")),
         Some("check") => check(args.get(2).map(|s| s.as_str()).unwrap_or(""), args.get(3).map(|s| s.as_str()).unwrap_or("quick")),
         _ => {
